@@ -33,7 +33,11 @@ type scheduler struct {
 	trace   [2][]string
 }
 
-var theSched = func() *scheduler { s := &scheduler{running: -1, ids: map[uint64]int{}}; s.cond = sync.NewCond(&s.mu); return s }()
+var theSched = func() *scheduler {
+	s := &scheduler{running: -1, ids: map[uint64]int{}}
+	s.cond = sync.NewCond(&s.mu)
+	return s
+}()
 
 func goid() uint64 {
 	var buf [64]byte
